@@ -65,6 +65,20 @@ Step(rec) ==
          /\ st' = [i \in Ids |-> IF i \in got
                                  THEN [st[i] EXCEPT !.errors = IF st[i].owner \in Rng(rec.fail) THEN @ + 1 ELSE 0]
                                  ELSE st[i]]
+    [] rec.act = "ReportDuring" ->
+         \* rec.sent is in wire order; the event (Unsubscribe of rec.j / Tick) happened while the first notification was
+         \* on its way: the first one was live before, every later one is live after the event, at its own send time
+         LET st1 == IF rec.ev = "Unsubscribe" /\ st[rec.j].issued /\ rec.evres = "ok" THEN [st EXCEPT ![rec.j].unsub = TRUE] ELSE st
+             Match(s, i, t) == Alive(s[i], t) /\ rec.a \in s[i].filter
+             got == {x.id : x \in SentOf(rec, rec.a)} IN
+         /\ Clause("delivered_only_to_subscriptions_live_at_send_time",
+                   \A k \in DOMAIN rec.sent :
+                      IF k = 1 THEN Match(st, rec.sent[k].id, now) ELSE Match(st1, rec.sent[k].id, rec.now))
+         /\ Clause("delivered_to_every_live_matching_subscription",
+                   \A i \in Ids : (Match(st, i, now) /\ Match(st1, i, rec.now)) => i \in got)
+         /\ Clause("delivered_once", Once(rec))
+         /\ Clause("only_this_report", \A x \in Rng(rec.sent) : x.kind = rec.a /\ x.addr = "notify")
+         /\ st' = [i \in Ids |-> IF i \in got THEN [st1[i] EXCEPT !.errors = 0] ELSE st1[i]]
     [] rec.act = "Stop" ->
          LET live == {i \in Ids : Alive(st[i], rec.now)}
              ends == {x.id : x \in SentOf(rec, "End")} IN
